@@ -297,3 +297,38 @@ func vh_toFromMontgomery() {
 	r.FromMontgomery(&m)
 	verif.Assert(val52(&r).Lt(fL()) && verif.ModEq(val52(&r), va, fL()), "FromMontgomery(ToMontgomery(a)) = a mod L")
 }
+
+// exponent arithmetic for the addition-chain obligation (c05_more.go): the limbs hold an EXPONENT in radix 2^52
+func expAdd(s, a, b *unpackedScalar) {
+	var carry uint64
+	for i := 0; i < 5; i++ {
+		t := a[i] + b[i] + carry
+		s[i] = t & (1<<52 - 1)
+		carry = t >> 52
+	}
+}
+
+// ---- "log domain" helpers (c05_more.go): every limb holds one coordinate of an exponent vector mod 2^48 ----
+const lgN = 5 // limbs; limb 0 is not read (the constant One lands there), limbs 1..3 are generators, limb 4 counts R
+const lgMask = 1<<48 - 1
+
+func lgLin(s, a, b *unpackedScalar, ca, cb, dR int64) {
+	var r unpackedScalar
+	for i := 0; i < lgN; i++ {
+		var bi uint64
+		if b != nil {
+			bi = b[i]
+		}
+		r[i] = (uint64(ca)*a[i] + uint64(cb)*bi) & lgMask
+	}
+	r[lgN-1] = (r[lgN-1] + uint64(dR)) & lgMask
+	*s = r
+}
+
+func lgCoord(s *unpackedScalar, i int) int64 {
+	v := s[i] & lgMask
+	if v >= 1<<47 {
+		return int64(v) - 1<<48
+	}
+	return int64(v)
+}
